@@ -113,7 +113,7 @@ theorem clearDown_inv (hi lo : Int) (s s' : State) (r : Unit) (h : exec (clearDo
 
 /-- child `s` and parent `t` between the write of the result (child slot `rc`, parent slot `rp`) and
     the end of RETURN: same heap, globals, module cache; the two result slots hold the same value -/
-structure Rt (k : Nat) (rc rp : Nat) (s t : State) : Prop where
+structure Rt (T0 : State) (bp k : Nat) (rc rp : Nat) (s t : State) : Prop where
   heap : s.heap = t.heap
   globals : s.globals = t.globals
   modules : s.modules = t.modules
@@ -123,16 +123,26 @@ structure Rt (k : Nat) (rc rp : Nat) (s t : State) : Prop where
   errT : t.err = none
   res : s.stack[rc]! = t.stack[rp]!
   szT : t.stack.size = stackSize
+  lowF : ∀ j : Nat, j < k → t.frames[j]! = T0.frames[j]!
+  lowS : ∀ i : Nat, i + 1 < bp → t.stack[i]! = T0.stack[i]!
+  curT : t.curFrame = k
 
-variable {bp k d H N : Nat} {a : Int}
+variable {T0 : State} {bp k d H N : Nat} {a : Int}
 
 /-- both write the result `v`: the child into its slot `i`, the parent into its slot `j` -/
-theorem sh_rt_stackSet (i j : Int) (v : V) :
-    RelS (Sh bp k 0 H N a) (PQ (fun _ _ => True) (Rt k i.toNat j.toNat)) (stackSet i v) (stackSet j v) := by
+theorem sh_rt_stackSet (i j : Int) (v : V) (hjb : (bp : Int) - 1 ≤ j) :
+    RelS (Sh T0 bp k 0 H N a) (PQ (fun _ _ => True) (Rt T0 bp k i.toNat j.toNat)) (stackSet i v) (stackSet j v) := by
   intro s t h x s' y t' h1 h2
   obtain ⟨_, hi, rfl⟩ := stackSet_inv _ _ _ _ _ h1
   obtain ⟨_, hj, rfl⟩ := stackSet_inv _ _ _ _ _ h2
-  refine ⟨trivial, ⟨h.heap, h.globals, h.modules, by have := h.fiS; show s.frameIndex = 1; omega, by have := h.fiT; show t.frameIndex = (k : Int) + 1; omega, h.errS, h.errT, ?_, ?_⟩⟩
+  refine ⟨trivial, ⟨h.heap, h.globals, h.modules, by have := h.fiS; show s.frameIndex = 1; omega, by have := h.fiT; show t.frameIndex = (k : Int) + 1; omega, h.errS, h.errT, ?_, ?_, h.lowF, ?_, by have := h.curT; show t.curFrame = k; omega⟩⟩
+  rotate_right
+  · intro i' hi'
+    show (t.stack.set! j.toNat v)[i']! = T0.stack[i']!
+    rw [getElem!_set!]
+    have c : ¬ (j.toNat = i' ∧ j.toNat < t.stack.size) := fun c => by omega
+    rw [if_neg c]
+    exact h.lowS i' hi'
   · show (s.stack.set! i.toNat v)[i.toNat]! = (t.stack.set! j.toNat v)[j.toNat]!
     rw [getElem!_set!, getElem!_set!, h.shapeS.stack, h.shapeT.stack]
     have c1 : i.toNat = i.toNat ∧ i.toNat < stackSize := ⟨rfl, by omega⟩
@@ -141,8 +151,8 @@ theorem sh_rt_stackSet (i j : Int) (v : V) :
   · show (t.stack.set! j.toNat v).size = stackSize
     simp [Array.set!_eq_setIfInBounds, h.shapeT.stack]
 
-theorem rt_clearDown (rc rp : Nat) (h1 l1 h2 l2 : Int) (hc : (rc : Int) < l1) (hp : (rp : Int) < l2) :
-    RelS (Rt k rc rp) (PQ (fun _ _ => True) (Rt k rc rp)) (clearDown h1 l1) (clearDown h2 l2) := by
+theorem rt_clearDown (rc rp : Nat) (h1 l1 h2 l2 : Int) (hc : (rc : Int) < l1) (hp : (rp : Int) < l2) (hl2 : (bp : Int) - 1 ≤ l2) :
+    RelS (Rt T0 bp k rc rp) (PQ (fun _ _ => True) (Rt T0 bp k rc rp)) (clearDown h1 l1) (clearDown h2 l2) := by
   intro s t h x s' y t' e1 e2
   obtain ⟨a1, _, a3⟩ := clearDown_inv _ _ _ _ _ e1
   obtain ⟨b1, b2, b3⟩ := clearDown_inv _ _ _ _ _ e2
@@ -150,7 +160,8 @@ theorem rt_clearDown (rc rp : Nat) (h1 l1 h2 l2 : Int) (hc : (rc : Int) < l1) (h
   rw [a1, b1]
   exact ⟨h.heap, h.globals, h.modules, h.fiS, h.fiT, h.errS, h.errT, by
     show s'.stack[rc]! = t'.stack[rp]!
-    rw [a3 rc hc, b3 rp hp]; exact h.res, by show t'.stack.size = stackSize; rw [b2]; exact h.szT⟩
+    rw [a3 rc hc, b3 rp hp]; exact h.res, by show t'.stack.size = stackSize; rw [b2]; exact h.szT, h.lowF,
+    fun i hi => by show t'.stack[i]! = T0.stack[i]!; rw [b3 i (by omega)]; exact h.lowS i hi, h.curT⟩
 
 /-! ### back to the caller's frame (parent only) -/
 
@@ -168,7 +179,8 @@ def retUp (fi : Int) : M Ctl := do
 
 theorem retUp_inv (fi : Int) (t t' : State) (r : Ctl) (h : exec (retUp fi) t = (.ok r, t')) :
     r = .next ∧ t'.heap = t.heap ∧ t'.globals = t.globals ∧ t'.modules = t.modules ∧ t'.err = t.err ∧
-    t'.stack = t.stack ∧ t'.sp = t.sp ∧ t'.frameIndex = t.frameIndex - 1 ∧ t'.curFrame = (fi - 2).toNat := by
+    t'.stack = t.stack ∧ t'.sp = t.sp ∧ t'.frameIndex = t.frameIndex - 1 ∧ t'.curFrame = (fi - 2).toNat ∧
+    (∀ j : Nat, j ≠ t.curFrame → t'.frames[j]! = t.frames[j]!) := by
   unfold retUp clearCurrentFrame at h
   simp only [exec_bind] at h
   have e0 : ∀ (f : Frame → Frame) (u : State), exec (setCurFrame f) u = (.ok (), { u with frames := u.frames.modify u.curFrame f }) :=
@@ -190,13 +202,19 @@ theorem retUp_inv (fi : Int) (t t' : State) (r : Ctl) (h : exec (retUp fi) t = (
     · simp at h
     · simp only [exec_pure, Prod.mk.injEq, Except.ok.injEq] at h
       obtain ⟨rfl, rfl⟩ := h
-      exact ⟨rfl, rfl, rfl, rfl, rfl, rfl, rfl, rfl, rfl⟩
+      refine ⟨rfl, rfl, rfl, rfl, rfl, rfl, rfl, rfl, rfl, ?_⟩
+      intro j hj
+      show (t.frames.modify t.curFrame _)[j]! = t.frames[j]!
+      rw [getElem!_modify]
+      have c : ¬ (t.curFrame = j ∧ j < t.frames.size) := fun c => hj c.1.symm
+      rw [if_neg c]
 
 /-- what RETURN establishes between the child (its loop returns) and the parent (back in the caller) -/
-def RetQ (bp k : Nat) (r r' : Ctl) (s' t' : State) : Prop :=
+def RetQ (T0 : State) (bp k : Nat) (r r' : Ctl) (s' t' : State) : Prop :=
   r = .ret ∧ r' = .next ∧ s'.heap = t'.heap ∧ s'.globals = t'.globals ∧ s'.modules = t'.modules ∧
   s'.err = none ∧ t'.err = none ∧ s'.frameIndex = 1 ∧ t'.frameIndex = k ∧ t'.sp = bp ∧ 1 ≤ s'.sp ∧
-  s'.stack[(s'.sp - 1).toNat]! = t'.stack[(t'.sp - 1).toNat]! ∧ t'.stack.size = stackSize
+  s'.stack[(s'.sp - 1).toNat]! = t'.stack[(t'.sp - 1).toNat]! ∧ t'.stack.size = stackSize ∧
+  (∀ j : Nat, j < k → t'.frames[j]! = T0.frames[j]!) ∧ (∀ i : Nat, i + 1 < bp → t'.stack[i]! = T0.stack[i]!)
 
 /-- everything of RETURN after the result slot is written -/
 def retRest (hi b : Int) : M Ctl := do
@@ -207,9 +225,9 @@ def retRest (hi b : Int) : M Ctl := do
   retUp s.frameIndex
 
 theorem rel_retRest (hk : 1 ≤ k) (hbp : 1 ≤ bp) (c hi hi' : Int) (hc : 1 ≤ c) :
-    RelS (Rt k (c - 1).toNat ((bp : Int) - 1).toNat) (RetQ bp k) (retRest hi c) (retRest hi' bp) := by
+    RelS (Rt T0 bp k (c - 1).toNat ((bp : Int) - 1).toNat) (RetQ T0 bp k) (retRest hi c) (retRest hi' bp) := by
   unfold retRest
-  refine RelS.bindV (rt_clearDown _ _ _ _ _ _ (by omega) (by omega)) ?_
+  refine RelS.bindV (rt_clearDown _ _ _ _ _ _ (by omega) (by omega) (by omega)) ?_
   intro _ _ _
   intro s t h r s' r' t' h1 h2
   have es : ∀ (v : Int) (u : State), exec (setSp v) u = (.ok (), { u with sp := v }) := fun _ _ => rfl
@@ -223,8 +241,8 @@ theorem rel_retRest (hk : 1 ≤ k) (hbp : 1 ≤ bp) (c hi hi' : Int) (hc : 1 ≤
   rw [if_neg c2] at h2
   simp only [exec_pure, Prod.mk.injEq, Except.ok.injEq] at h1
   obtain ⟨rfl, rfl⟩ := h1
-  obtain ⟨q1, q2, q3, q4, q5, q6, q7, q8, q9⟩ := retUp_inv _ _ _ _ h2
-  refine ⟨rfl, q1, ?_, ?_, ?_, h.errS, ?_, h.fiS, ?_, ?_, hc, ?_, ?_⟩
+  obtain ⟨q1, q2, q3, q4, q5, q6, q7, q8, q9, q10⟩ := retUp_inv _ _ _ _ h2
+  refine ⟨rfl, q1, ?_, ?_, ?_, h.errS, ?_, h.fiS, ?_, ?_, hc, ?_, ?_, ?_, ?_⟩
   · rw [q2]; exact h.heap
   · rw [q3]; exact h.globals
   · rw [q4]; exact h.modules
@@ -233,19 +251,25 @@ theorem rel_retRest (hk : 1 ≤ k) (hbp : 1 ≤ bp) (c hi hi' : Int) (hc : 1 ≤
   · rw [q7]
   · rw [q6, q7]; exact h.res
   · rw [q6]; exact h.szT
+  · intro j hj
+    rw [q10 j (by show j ≠ t.curFrame; rw [h.curT]; omega)]
+    exact h.lowF j hj
+  · intro i hi
+    rw [q6]
+    exact h.lowS i hi
 
 theorem sh_curFrame0 :
-    RelS (Sh bp k 0 H N a) (PQ (fun f g => FrameSh bp H f g ∧ f.bp = 0) (Sh bp k 0 H N a)) curFrame curFrame :=
+    RelS (Sh T0 bp k 0 H N a) (PQ (fun f g => FrameSh bp H f g ∧ f.bp = 0) (Sh T0 bp k 0 H N a)) curFrame curFrame :=
   (sh_curFrame_P (fun f => f.bp = 0)).conseq (fun s t h => ⟨h, h.bp0⟩) (fun _ _ _ _ h => h)
 
 theorem sh_curFrame_pos :
-    RelS (Sh bp k (d + 1) H N a) (PQ (fun f g => FrameSh bp H f g ∧ 1 ≤ f.bp) (Sh bp k (d + 1) H N a)) curFrame curFrame :=
+    RelS (Sh T0 bp k (d + 1) H N a) (PQ (fun f g => FrameSh bp H f g ∧ 1 ≤ f.bp) (Sh T0 bp k (d + 1) H N a)) curFrame curFrame :=
   (sh_curFrame_P (fun f => 1 ≤ f.bp)).conseq (fun s t h => ⟨h, h.bpPos (d + 1) (by omega) (Nat.le_refl _)⟩) (fun _ _ _ _ h => h)
 
 /-- **RETURN of the invoked function itself.**  From `Sh`-related states at depth 0 (`bp ≥ 1`: the callee value
     lies below the frame; `k ≥ 1`: the parent has a caller frame) -/
 theorem sh_execReturn (ha : a ≤ N) (hk : 1 ≤ k) (hbp : 1 ≤ bp) :
-    RelS (Sh bp k 0 H N a) (RetQ bp k) execReturn execReturn := by
+    RelS (Sh T0 bp k 0 H N a) (RetQ T0 bp k) execReturn execReturn := by
   unfold execReturn
   sh1
   refine RelS.bindV sh_curFrame0 ?_
@@ -267,23 +291,23 @@ theorem sh_execReturn (ha : a ≤ N) (hk : 1 ≤ k) (hbp : 1 ≤ bp) :
     sh1
     apply RelS.ite
     · sh1
-      refine RelS.bindV (sh_rt_stackSet _ _ _) ?_
+      refine RelS.bindV (sh_rt_stackSet _ _ _ (by omega)) ?_
       intro _ _ _
-      have := rel_retRest (k := k) hk hbp ((cf.1.numLocals : Int) + 1) (a - 1) (a + bp - 1) (by omega)
+      have := rel_retRest (T0 := T0) (k := k) hk hbp ((cf.1.numLocals : Int) + 1) (a - 1) (a + bp - 1) (by omega)
       have eq : (0 : Int) + (bp : Int) = (bp : Int) := by omega
       rw [eq]
       exact this
-    · refine RelS.bindV (sh_rt_stackSet _ _ _) ?_
+    · refine RelS.bindV (sh_rt_stackSet _ _ _ (by omega)) ?_
       intro _ _ _
-      have := rel_retRest (k := k) hk hbp ((cf.1.numLocals : Int) + 1) (a - 1) (a + bp - 1) (by omega)
+      have := rel_retRest (T0 := T0) (k := k) hk hbp ((cf.1.numLocals : Int) + 1) (a - 1) (a + bp - 1) (by omega)
       have eq : (0 : Int) + (bp : Int) = (bp : Int) := by omega
       rw [eq]
       exact this
 
 /-! ### RETURN of a nested call -/
 
-theorem Sh.leave {s t : State} (h : Sh bp k (d + 1) H N a s t) (F : Frame → Frame) :
-    Sh bp k d H N a
+theorem Sh.leave {s t : State} (h : Sh T0 bp k (d + 1) H N a s t) (F : Frame → Frame) :
+    Sh T0 bp k d H N a
       { s with frames := s.frames.modify s.curFrame F, frameIndex := s.frameIndex - 1, curFrame := (s.frameIndex - 2).toNat,
                ip := ((s.frames.modify s.curFrame F)[(s.frameIndex - 2).toNat]!).ip }
       { t with frames := t.frames.modify t.curFrame F, frameIndex := t.frameIndex - 1, curFrame := (t.frameIndex - 2).toNat,
@@ -308,7 +332,14 @@ theorem Sh.leave {s t : State} (h : Sh bp k (d + 1) H N a s t) (F : Frame → Fr
   refine { h with ip := ?_, curS := e1, curT := e2, fiS := by show s.frameIndex - 1 = _; omega,
                   fiT := by show t.frameIndex - 1 = _; omega,
                   shapeS := ⟨h.shapeS.stack, by simp [hsS]⟩, shapeT := ⟨h.shapeT.stack, by simp [hsT]⟩,
-                  kLt := by omega, frames := ?_, ips := ?_, bp0 := ?_, bpPos := ?_ }
+                  kLt := by omega, frames := ?_, ips := ?_, bp0 := ?_, bpPos := ?_, lowF := ?_ }
+  rotate_right
+  · intro j hj
+    show (t.frames.modify t.curFrame F)[j]! = T0.frames[j]!
+    rw [getElem!_modify, h.curT]
+    have c : ¬ (k + (d + 1) = j ∧ j < t.frames.size) := fun c => by omega
+    rw [if_neg c]
+    exact h.lowF j hj
   · show ((s.frames.modify s.curFrame F)[(s.frameIndex - 2).toNat]!).ip = ((t.frames.modify t.curFrame F)[(t.frameIndex - 2).toNat]!).ip
     rw [e1, e2, gS d (Nat.le_refl _), gT d (Nat.le_refl _)]
     exact h.ips d (by omega)
@@ -330,7 +361,7 @@ theorem Sh.leave {s t : State} (h : Sh bp k (d + 1) H N a s t) (F : Frame → Fr
 
 /-- back to the frame below, on both sides -/
 theorem sh_retUp (fi fi' : Int) (h1 : fi = (d : Int) + 2) (h2 : fi' = (k : Int) + (d : Int) + 2) (ha : a ≤ N) (hH : H ≤ N) :
-    RelS (Sh bp k (d + 1) H N a) (PostC bp k) (retUp fi) (retUp fi') := by
+    RelS (Sh T0 bp k (d + 1) H N a) (PostC T0 bp k) (retUp fi) (retUp fi') := by
   subst h1; subst h2
   intro s t h r s' r' t' e1 e2
   have hfs := h.fiS
@@ -363,7 +394,7 @@ theorem sh_retUp (fi fi' : Int) (h1 : fi = (d : Int) + 2) (h2 : fi' = (k : Int) 
 /-- **RETURN of a nested call** (the current frame lies above the invoked function's frame): both sides go back
     to the frame below -/
 theorem sh_execReturnUp (ha : a ≤ N) (hH : H ≤ N) :
-    RelS (Sh bp k (d + 1) H N a) (PostC bp k) execReturn execReturn := by
+    RelS (Sh T0 bp k (d + 1) H N a) (PostC T0 bp k) execReturn execReturn := by
   unfold execReturn
   sh1
   refine RelS.bindV sh_curFrame_pos ?_
@@ -375,7 +406,7 @@ theorem sh_execReturnUp (ha : a ≤ N) (hH : H ≤ N) :
   have c2 : ¬ ((bp1 + (bp : Int) == 0) = true) := by simp; omega
   rw [if_neg c1, if_neg c2]
   sh1
-  have rest : ∀ N1, N ≤ N1 → RelS (Sh bp k (d + 1) H N1 a) (PostC bp k) (retRest (a - 1) bp1) (retRest (a + bp - 1) (bp1 + bp)) := by
+  have rest : ∀ N1, N ≤ N1 → RelS (Sh T0 bp k (d + 1) H N1 a) (PostC T0 bp k) (retRest (a - 1) bp1) (retRest (a + bp - 1) (bp1 + bp)) := by
     intro N1 hN1
     unfold retRest
     sh1; sh1
